@@ -51,6 +51,7 @@ DEFAULT_PROFILE = {
     "int_widths": [1, 1, 1, 2, 2, 3, 4, 5, 6, 7, 8, 9, 16],
     "flat": False,                 # C18: only int/bits/data, no modifiers
     "p_backward_at": 0.25,
+    "p_describe": 0.0,             # length = Int(n).describe(AutoLength(next)); next = Data(length)
 }
 
 
@@ -176,7 +177,7 @@ class Gen:
         if mode == "const":
             f["size"] = rng.choice([0, 1, 2, 3, 4, 5, 8])
             if rng.random() < self.p["p_default"]:
-                f["default"] = bytes(rng.choice(b"abcXYZ\x00\xff.") for _ in range(f["size"])) if rng.random() < 0.7 else b"z"
+                f["default"] = bytes(rng.choice(b"abcXYZ\x00\xff.") for _ in range(f["size"]))
                 if not f["default"]:
                     del f["default"]
         elif mode == "dyn":
@@ -354,7 +355,18 @@ class Gen:
         i = 0
         while len(fields) < nfields:
             fname = "f%d" % len(fields)
-            ints = [f for f in fields if f["t"] in ("int", "bits") and plain(f) and not f.get("signed")]
+            ints = [f for f in fields if f["t"] in ("int", "bits") and plain(f) and not f.get("signed") and "describe" not in f]
+            if not self.p["flat"] and rng.random() < self.p["p_describe"]:
+                ln = {"name": fname, "t": "int", "n": rng.choice([1, 1, 2]), "signed": False,
+                      "endian": rng.choice([None, None, "big", "little"]),
+                      "describe": {"k": "autolength", "of": "f%d" % (len(fields) + 1)}, "hint": {"small": True}}
+                dt = {"name": "f%d" % (len(fields) + 1), "t": "data", "mode": "dyn", "size": {"form": "field", "e": ["f", fname]}}
+                if rng.random() < 0.3:
+                    dt["default"] = rng.choice([b"hi", b"q"])
+                fields.append(ln)
+                fields.append(dt)
+                pos_lb += ln["n"]
+                continue
             datas = [f for f in fields if f["t"] == "data" and plain(f)]
             kinds = dict(self.p["kinds"])
             if depth >= self.p["max_depth"]:
@@ -496,6 +508,8 @@ def field_skeleton(fam, f, depth=0):
         sk.append(("opt", dyn_shape(f["opt"]["when"])))
     if "default" in f:
         sk.append("default")
+    if "describe" in f:
+        sk.append("describe")
     return sk
 
 
